@@ -36,9 +36,9 @@ OPS = ["reseed_at", "reseed_at", "reroot_at_node", "reroot_at_edge", "reroot_at_
        "suppress_unifurcations", "ladderize", "reorder", "randomly_rotate", "randomly_reorient", "shuffle_taxa",
        "encode_bipartitions", "encode_bipartitions", "update_bipartitions", "set_is_rooted", "scale_edges",
        "add_child", "insert_child", "new_child", "insert_new_child", "remove_child", "set_child_nodes", "clear_child_nodes",
-       "reattach"]
+       "reattach", "set_seed_node", "prune_internal_taxa"]
 FAULT_OPS = ["prune_subtree_seed", "edge_collapse_leaf", "reseed_foreign", "prune_subtree_foreign", "filter_all",
-             "remove_child_nonchild", "add_child_attached", "prune_all_taxa"]
+             "remove_child_nonchild", "add_child_attached", "prune_all_taxa", "reseed_at_leaf", "reroot_at_leaf", "reroot_at_leaf_edge"]
 
 
 class Hang(Exception):
@@ -438,6 +438,35 @@ class C03(Machine):
             if op == "new_child":
                 return (lambda: p.new_child(edge_length=st["len1"]), True, R, A, False, True)
             return (lambda: p.insert_new_child(idx, edge_length=st["len1"]), True, R, A, False, True)
+        if op == "set_seed_node":
+            # documented: the new seed and its descendants are spliced out of their context into this tree
+            cands = [nd for nd in internals if nd._parent_node is not None]
+            if not cands:
+                return None
+            nd = pick(cands)
+            below = set(id(x) for x in leaves_below(nd))
+            R = set(id(x.taxon) for x in leaves if x.taxon is not None and id(x) not in below)
+            # taxa on internal nodes outside the subtree go too; they never were leaf taxa
+            def do():
+                import warnings
+                with warnings.catch_warnings():
+                    warnings.simplefilter("ignore")
+                    tree.seed_node = nd
+            return (do, True, R, A, False, True)
+        if op == "prune_internal_taxa":
+            # taxa that sit on internal nodes, removed with the documented flag
+            cands = [nd for nd in internals if nd.taxon is not None and nd._parent_node is not None]
+            if not cands:
+                return None
+            nd = pick(cands)
+            below = leaves_below(nd)
+            inside = set(id(x) for x in below)
+            if not any(id(x) not in inside for x in taxleaves):
+                return None     # at least one leaf with a taxon must survive (prune_leaves_without_taxa runs afterwards)
+            R = set(id(x.taxon) for x in below if x.taxon is not None)
+            R.add(id(nd.taxon))
+            return (lambda: tree.prune_taxa([nd.taxon], update_bipartitions=ub, suppress_unifurcations=su,
+                                            is_apply_filter_to_leaf_nodes=False, is_apply_filter_to_internal_nodes=True), True, R, A, ub, True)
         if op == "set_child_nodes":
             if not internals:
                 return None
@@ -491,6 +520,18 @@ class C03(Machine):
                 return None
             p = pick(tgt, k2)
             return (lambda: p.add_child(nd), False, R, A, False, True)
+        if op in ("reseed_at_leaf", "reroot_at_leaf", "reroot_at_leaf_edge"):
+            # the docstrings ask for an internal node / internal edge
+            cands = [nd for nd in leaves if nd._parent_node is not None]
+            if not cands:
+                return None
+            nd = pick(cands)
+            if op == "reseed_at_leaf":
+                return (lambda: tree.reseed_at(nd, update_bipartitions=False, suppress_unifurcations=su, collapse_unrooted_basal_bifurcation=cb),
+                        False, R, A, False, True)
+            if op == "reroot_at_leaf":
+                return (lambda: tree.reroot_at_node(nd, update_bipartitions=False, suppress_unifurcations=su), False, R, A, False, True)
+            return (lambda: tree.reroot_at_edge(nd._edge, update_bipartitions=False, suppress_unifurcations=su), False, R, A, False, True)
         if op == "prune_all_taxa":
             R = set(id(nd.taxon) for nd in nodes if nd.taxon is not None)
             return (lambda: tree.prune_taxa([nd.taxon for nd in taxleaves]), False, R, A, False, True)
